@@ -284,7 +284,12 @@ func (w *c12World) run(c *c12Case, rep *kit.Report) (vs []c12Viol, inconclusive 
 	}
 	home := filepath.Join(w.work, fmt.Sprintf("case-%d", c.Index))
 	os.RemoveAll(home)
-	defer os.RemoveAll(home)
+	defer func() {
+		if os.Getenv("VERIF_KEEP") != "" && len(vs) > 0 {
+			exec.Command("cp", "-a", home, os.Getenv("VERIF_KEEP")).Run()
+		}
+		os.RemoveAll(home)
+	}()
 	if out, err := exec.Command("cp", "-a", tmpl, home).CombinedOutput(); err != nil {
 		return nil, "cp: " + string(out)
 	}
@@ -419,6 +424,9 @@ func (w *c12World) run(c *c12Case, rep *kit.Report) (vs []c12Viol, inconclusive 
 	reg.OnRequest, reg.OnBody, reg.Cut = nil, nil, nil
 	s2, err := StartSrv(w.bin, home, nil, env...)
 	if err != nil {
+		if envFailure(err) {
+			return nil, "restart: " + err.Error()
+		}
 		add(c12Viol{"restart-failed", "the server does not start on the store a crash left behind: " + err.Error()})
 		return vs, ""
 	}
@@ -449,6 +457,9 @@ func (w *c12World) run(c *c12Case, rep *kit.Report) (vs []c12Viol, inconclusive 
 	srv.Stop()
 	s3, err := StartSrv(w.bin, home, nil, env...)
 	if err != nil {
+		if envFailure(err) {
+			return nil, "second restart: " + err.Error()
+		}
 		add(c12Viol{"restart-failed", "second restart failed: " + err.Error()})
 		return vs, ""
 	}
